@@ -1,12 +1,15 @@
 /- `atlasmodel`: JSON-lines driver for the executable models. One request per line, one answer per
 line. Imports only core Lean + the model (no Mathlib), so it links as a native executable. -/
 import Driver.Exec
+import Driver.Hash
 open Lean
 
 def dispatch (j : Json) : Json :=
   match Driver.str j "op" with
   | "pending" => Driver.handlePending j
   | "exec" => Driver.handleExec j
+  | "hash.validate" => Driver.handleHashValidate j
+  | "hash.sum" => Driver.handleHashSum j
   | "h1" => Json.mkObj [("h", Atlas.Base.h1 (Driver.unhex (Driver.str j "hex")))]
   | op => Json.mkObj [("err", s!"unknown-op:{op}")]
 
